@@ -16,13 +16,14 @@ EXTENDS Common, Integers
 
 Commands == {"get-plugin-metadata", "describe-key", "generate-signature", "generate-envelope", "verify-signature"}
 MetaFields == {"name", "description", "version", "url", "capabilities", "supportedContractVersions"}
-StdoutKinds == {"valid", "nonJSON", "empty", "trailingGarbage", "overCap", "wrongName", "wrongContract"} \cup {"missing-" \o f : f \in MetaFields}
+StdoutKinds == {"valid", "nonJSON", "empty", "trailingGarbage", "overCap", "wrongName", "wrongNameCase", "wrongContract"} \cup {"missing-" \o f : f \in MetaFields}
 ErrCodes == {"VALIDATION_ERROR", "UNSUPPORTED_CONTRACT_VERSION", "ACCESS_DENIED", "TIMEOUT", "THROTTLED", "ERROR"}
 StderrKinds == {"empty", "incompleteJSON", "nonJSON", "huge"} \cup {"err-" \o c : c \in ErrCodes}
-Timings == {"immediate", "slow", "heldPipes", "slowHeld"}
+(* "...Cancel": the context is cancelled (no deadline) instead of expiring *)
+Timings == {"immediate", "slow", "heldPipes", "slowHeld", "slowCancel", "slowHeldCancel"}
 
 (* ---- Part B: classification --------------------------------------------- *)
-Killed(in) == in.timing \in {"slow", "slowHeld"}                     \* still running at the deadline: killed by the host
+Killed(in) == in.timing \in {"slow", "slowHeld", "slowCancel", "slowHeldCancel"}                     \* still running at the deadline: killed by the host
 (* the command did not complete successfully, or its output broke the cap *)
 RunFailed(in) == Killed(in) \/ in.exit # 0 \/ in.stdout = "overCap" \/ in.stderr = "huge"
 (* a killed process printed nothing yet *)
@@ -39,7 +40,7 @@ Class(in) ==
   ELSE IF in.stdout \in {"nonJSON", "empty", "trailingGarbage"} THEN "malformedError"
   ELSE IF in.cmd = "get-plugin-metadata"
        THEN (IF in.stdout = "valid" THEN "ok"
-             ELSE IF in.stdout = "wrongName" THEN "nameError"
+             ELSE IF in.stdout \in {"wrongName", "wrongNameCase"} THEN "nameError"
              ELSE "malformedError")             \* a mandatory field missing, or the contract version not supported
        ELSE "ok"
 (* when a descendant keeps the pipes open the host may give up waiting and report the run as failed although the reply
